@@ -255,9 +255,14 @@ def run(rep, tier, seed, keep=False):
                 rep.evaluations += 1
                 if not (got2[0] == 'ok' and same(got2[1], want)):
                     rep.violation('C10/roundtrip', '`$` on host document %s (t2l=%s, s2l=%s): real %r, canonical %r' % (short(t), t2l, s2l, got2, want), case)
-                for shape, mk in eng.shapes:
+                for shape, mk in eng.shapes + [('yaql.create_context(data=document), evaluated without a data argument', None)]:
                     try:
-                        got3 = ('ok', census(eng.finalize(build(t), t2l, s2l, conv=True, ctx=mk())))
+                        if mk is None:
+                            import yaql as _y
+                            from yaql.language import utils as _u
+                            got3 = ('ok', census(eng.st[(t2l, s2l, True)].evaluate(data=_u.NO_VALUE, context=_y.create_context(data=build(t)))))
+                        else:
+                            got3 = ('ok', census(eng.finalize(build(t), t2l, s2l, conv=True, ctx=mk())))
                     except Exception as e:  # noqa
                         got3 = ('raises', type(e).__name__)
                     rep.evaluations += 1
